@@ -53,6 +53,10 @@ def make_world(seed_rng_key, run):
     n = len(cols["start"])
     w = {"cnr": make_cna(cols, meta={"sample_id": "S"}, index=(np.arange(n) * 3 + 7) if odd_index else None)}
     tgt, anti, ref, _ = C04.gen_case(rng)
+    # covariate ties: the order within a tie is decided by fix's seeded shuffle, so the result depends on that seed being set
+    for col in ("gc", "rmask"):
+        if col in ref.columns:
+            ref[col] = ref[col].round(2)
     if rng.random() < 0.6:
         # fix documents no row-order precondition: rows in arbitrary order, arbitrary labels
         tgt = tgt.iloc[rng.permutation(len(tgt))]
